@@ -9,10 +9,12 @@
 pub mod util;
 pub mod c10;
 pub mod c11;
+pub mod c19;
 
 pub fn all_harnesses() -> Vec<(&'static str, fn())> {
     let mut v = Vec::new();
     v.extend_from_slice(c10::HARNESSES);
     v.extend_from_slice(c11::HARNESSES);
+    v.extend_from_slice(c19::HARNESSES);
     v
 }
